@@ -54,6 +54,8 @@ CASES = [
  ("C18-dict-ties", "C18", "dict print order with tied printed keys depends on insertion order", None, "same"),
  ("C04-pipe-noarg", "C04", "identity pipe called with no argument -> IndexError", "ㄴㄱㅎㄱ ㅎㄱ", "E 5,"),
  ("C04-import-unknown-builtin", "C04", "unknown built-in module -> KeyError", f"ㅂ {E(77)} ㅂㅎㄷ", "E 5,-60"),
+ ("C04-open-bad-fd", "C04", "opening a negative or oversized descriptor lets the host ValueError / TypeError escape", "ㄴㄱ ㄹ ㄱㄴㅎㄷ", "E 5,-63"),
+ ("C04-open-huge-fd", "C04", "descriptor 2^31: host TypeError", f"{E(2**31)} ㄹ ㄱㄴㅎㄷ", "E 5,-63"),
 ]
 def special(cid):
     if cid == "C04-float-base0":
